@@ -861,6 +861,7 @@ def get_charnos(node: ast.AST, source: str, keep_first_indent: bool = False) -> 
     node_position = _get_position(node)
 
     start_charno = line_start_charnos[start_position.lineno - 1] + start_position.col_offset
+    start_charno = min(start_charno, len(source))
     if getattr(node, "end_lineno", None) is None:
         return Range(start_charno, start_charno)
 
